@@ -10,7 +10,8 @@ for id in $ids; do
   p="$base/$id/patch.diff"; [ -f "$p" ] || p="$base/$id/SEED/patch.diff"
   [ -f "$p" ] || continue
   if ! git apply "$p" 2>/dev/null; then echo -e "$id\tAPPLY-FAILED"; continue; fi
-  for prop in $id ${EXTRA:-}; do
+  own=${id##*-}
+  for prop in $own ${EXTRA:-}; do
     start=$(date +%s)
     out=$(cd /verif && RV_WATCHDOG_S=240 timeout 900 ./run "$prop" ${TIER:-quick} 2>&1); code=$?
     end=$(date +%s)
